@@ -84,8 +84,15 @@ pub fn gen_args(r: &mut Rng, op: i64, max_n: usize) -> (Vec<f64>, String) {
         400 => { let (p, name) = polygen::cw_profile(r, max_n); let mut v = vec![r.cad().abs() + 0.01, p.len() as f64]; v.extend(flat(&p)); (v, name.to_string()) }
         401 => (vec![r.cad().abs() + 0.01, r.cad().abs() + 0.01, (4 + r.below(40)) as f64], "cylinder".into()),
         402 => { let (p, name) = polygen::cw_profile(r, max_n); let k = r.uniform(0.3, 1.5); let (dx, dy) = (r.cad() * 0.01, r.cad() * 0.01);
-                 let up: Vec<P> = p.iter().map(|q| (q.0 * k + dx, q.1 * k + dy)).collect();
-                 let mut v = vec![r.cad().abs() + 0.01, p.len() as f64]; v.extend(flat(&p)); v.extend(flat(&up)); (v, name.to_string()) }
+                 let mut up: Vec<P> = p.iter().map(|q| (q.0 * k + dx, q.1 * k + dy)).collect();
+                 let mut low = p.clone();
+                 match r.below(3) {
+                     // the two profiles need not have the same shape: a regular polygon below a concave profile, or the same outline started one vertex later
+                     0 => { let n = p.len(); low = (0..n).map(|i| { let a = -(i as f64) * std::f64::consts::TAU / n as f64; (3.0 * a.cos(), 3.0 * a.sin()) }).collect(); }
+                     1 => { up.rotate_left(1); }
+                     _ => {}
+                 }
+                 let mut v = vec![r.cad().abs() + 0.01, p.len() as f64]; v.extend(flat(&low)); v.extend(flat(&up)); (v, name.to_string()) }
         403 => { let (p, name) = small_profile(r);
                  // revolve profiles live at x > 0
                  let off = 6.0 + r.uniform(0.0, 20.0); let q: Vec<P> = p.iter().map(|c| (c.0 + off, c.1)).collect();
